@@ -42,7 +42,7 @@ def body_vevent(start, end, dtstart, is_date, has_dtend, dtend, has_dur, dur):
         comp["DTEND"] = _val(dtend, is_date)
     if has_dur:
         comp["DURATION"] = mlib.Val(dur)
-    got = xical.apply_time_range_vevent(start, end, comp, mlib.tzify)
+    got = xical.apply_time_range_vevent(mlib.T(start), mlib.T(end), comp, mlib.tzify)
     row, want = O.vevent(start, end, dtstart, not is_date, dtend if has_dtend else None,
                          dur if has_dur else None)
     return (bool(got) == bool(want), row)
@@ -117,7 +117,7 @@ def body_vtodo(start, end, has_dtstart, dtstart, has_dur, dur, has_due, due, has
         comp["COMPLETED"] = _val(compl)
     if has_created:
         comp["CREATED"] = _val(created)
-    got = xical.apply_time_range_vtodo(start, end, comp, mlib.tzify)
+    got = xical.apply_time_range_vtodo(mlib.T(start), mlib.T(end), comp, mlib.tzify)
     row, want = O.vtodo(start, end, dtstart if has_dtstart else None, dur if has_dur else None,
                         due if has_due else None, compl if has_compl else None,
                         created if has_created else None)
@@ -174,7 +174,7 @@ def body_vjournal(start, end, has_dtstart, dtstart, is_date):
         comp["DTSTART"] = _val(dtstart, is_date)
     row, want = O.vjournal(start, end, dtstart if has_dtstart else None, not is_date)
     try:
-        got = xical.apply_time_range_vjournal(start, end, comp, mlib.tzify)
+        got = xical.apply_time_range_vjournal(mlib.T(start), mlib.T(end), comp, mlib.tzify)
     except xical.MissingProperty:
         # CalendarFilter.check maps MissingProperty to "does not match"
         got = False
@@ -198,8 +198,8 @@ def body_vfreebusy(start, end, has_dtstart, dtstart, has_dtend, dtend, periods):
         comp["DTEND"] = _val(dtend)
     ps = [(p[0], p[0] + p[1]) for p in periods]
     if ps:
-        comp["FREEBUSY"] = [mlib.Period(a, b) for (a, b) in ps]
-    got = xical.apply_time_range_vfreebusy(start, end, comp, mlib.tzify)
+        comp["FREEBUSY"] = [mlib.Period(mlib.T(a), mlib.T(b)) for (a, b) in ps]
+    got = xical.apply_time_range_vfreebusy(mlib.T(start), mlib.T(end), comp, mlib.tzify)
     row, want = O.vfreebusy(start, end, dtstart if has_dtstart else None, dtend if has_dtend else None, ps)
     return (bool(got) == bool(want), row)
 
